@@ -138,6 +138,10 @@ class _P:
                 args.append(T("lit", name=self.next()))
             elif tok in ("true", "false"):
                 args.append(T("lit", name=self.next()))
+            elif tok == "&":
+                # non-type argument: address of a (member) entity, e.g. member_hook<T, Hook, &T::hook_>
+                self.next()
+                args.append(T("lit", name="&" + self.parse_type().name))
             else:
                 args.append(self.parse_type())
             tok = self.next()
